@@ -1,8 +1,12 @@
 """Node-level fault injection: crash and pause.
 
-``CrashNode`` and ``PauseNode`` set a ``_crashed`` flag on the target entity.
-When ``_crashed`` is True, ``Event.invoke()`` silently drops events targeting
-that entity (same pattern as cancelled events).
+``CrashNode`` and ``PauseNode`` mark the target entity as down through its
+``_crashed`` attribute. While ``_crashed`` is truthy, ``Event.invoke()`` silently
+drops events targeting that entity (same pattern as cancelled events).
+
+``_crashed`` counts the crash/pause windows currently covering the entity, so
+overlapping or nested windows compose: the entity is back up only when every
+window that took it down has ended.
 """
 
 from __future__ import annotations
@@ -44,7 +48,7 @@ class CrashNode:
         events: list[Event] = []
 
         def crash(e: Event) -> None:
-            entity._crashed = True  # type: ignore[attr-defined]
+            entity._crashed = getattr(entity, "_crashed", 0) + 1  # type: ignore[attr-defined]
             logger.info("[FaultInjection] Crashed '%s' at %s", entity_name, e.time)
 
         events.append(
@@ -59,7 +63,7 @@ class CrashNode:
         if self.restart_at is not None:
 
             def restart(e: Event) -> None:
-                entity._crashed = False  # type: ignore[attr-defined]
+                entity._crashed = max(0, getattr(entity, "_crashed", 0) - 1)  # type: ignore[attr-defined]
                 logger.info(
                     "[FaultInjection] Restarted '%s' at %s",
                     entity_name,
@@ -101,11 +105,11 @@ class PauseNode:
         events: list[Event] = []
 
         def pause(e: Event) -> None:
-            entity._crashed = True  # type: ignore[attr-defined]
+            entity._crashed = getattr(entity, "_crashed", 0) + 1  # type: ignore[attr-defined]
             logger.info("[FaultInjection] Paused '%s' at %s", entity_name, e.time)
 
         def resume(e: Event) -> None:
-            entity._crashed = False  # type: ignore[attr-defined]
+            entity._crashed = max(0, getattr(entity, "_crashed", 0) - 1)  # type: ignore[attr-defined]
             logger.info("[FaultInjection] Resumed '%s' at %s", entity_name, e.time)
 
         events.append(
